@@ -92,7 +92,10 @@ CSend_F(w, c, m, id, i, kind) ==
       I1 == IF m = "start" THEN [j \in Insts(w) \cup {i} |-> IF j = i THEN NewInst(id, kind) ELSE w.I[j]]
             ELSE IF m = "stop" THEN [j \in Insts(w) |-> IF w.I[j].id = id THEN [w.I[j] EXCEPT !.stopped = TRUE] ELSE w.I[j]]
             ELSE w.I
-  IN [w EXCEPT !.first = f1, !.I = I1, !.doom = w.doom \/ EndsConn(w, c, m)]
+      \* a start whose id belongs to an operation the client has not seen terminated is a client
+      \* protocol violation: the server MAY end the connection (graphql-transport-ws: 4409)
+      dupId == m = "start" /\ \E j \in OfId(w, id) : w.I[j].cp = 0 /\ w.I[j].er = 0
+  IN [w EXCEPT !.first = f1, !.I = I1, !.doom = w.doom \/ EndsConn(w, c, m) \/ dupId]
 
 \* ------------------------------------------------------------- callbacks --
 InitFn_G(w, c, res) == c.initfn /\ w.first = "init" /\ w.initFn = "none"
